@@ -141,6 +141,10 @@ static void randomExec(vh::Rng & r, const std::string & mode, vh::Out & out)
     if (r.coin(1, 3)) {y = (y / (R / 2)) * (R / 2);}
     lo.push_back(std::min(x, y)); hi.push_back(std::max(x, y));
   }
+  if (!sym && r.coin(1, 4)) {                                 // same width on every axis, different offsets: equal cell counts, different first cells
+    long long w = (hi[0] - lo[0]) / R * R;
+    for (size_t a = 1; a < DIM; ++a) {long long sh = r.range(-20, 20) * R; lo[a] = std::max(-maxUnits, std::min(maxUnits - w, lo[0] + sh)); hi[a] = lo[a] + w;}
+  }
   if (sym) {long long m = std::max<long long>(1, std::llabs(hi[0])); lo.assign(DIM, -m); hi.assign(DIM, m);}
   // keep the number of cells per axis reasonable for the centre tables (<= 1e7 overall is the property's bound)
   G<S, DIM> g(u, R, nd, lo, hi, sym);
